@@ -2,7 +2,9 @@ package checks
 
 import (
 	"fmt"
+	"io"
 	"strings"
+	"testing/iotest"
 	"unicode/utf8"
 
 	"github.com/influxdata/influxql"
@@ -259,7 +261,7 @@ func c05Scan(c *Ctx, text string, regexAt map[int]bool, local map[string]int64) 
 	}
 	var viol func()
 	p, pv, stk := mon.Try(func() {
-		s := influxql.NewScanner(strings.NewReader(text))
+		s := influxql.NewScanner(c05Reader(text))
 		start := 0
 		for i := 0; ; i++ {
 			if i > len(f)+2 {
@@ -407,6 +409,42 @@ type c05lex struct {
 	regex bool
 }
 
+// c05Reader delivers the text the way different sources do: all at once, a
+// byte at a time, in halves, or in chunks that end right after every CR (the
+// two bytes of a CRLF then arrive in different reads). Chosen by a hash of the
+// text, so a replay uses the same delivery.
+func c05Reader(text string) io.Reader {
+	switch mon.Hash64(text) % 8 {
+	case 0:
+		return iotest.OneByteReader(strings.NewReader(text))
+	case 1:
+		return iotest.HalfReader(strings.NewReader(text))
+	case 2:
+		return &crChunkReader{s: text}
+	case 3:
+		return iotest.DataErrReader(strings.NewReader(text))
+	}
+	return strings.NewReader(text)
+}
+
+type crChunkReader struct{ s string }
+
+func (r *crChunkReader) Read(p []byte) (int, error) {
+	if len(r.s) == 0 {
+		return 0, io.EOF
+	}
+	n := len(r.s)
+	if i := strings.IndexByte(r.s, '\r'); i >= 0 {
+		n = i + 1
+	}
+	if n > len(p) {
+		n = len(p)
+	}
+	copy(p, r.s[:n])
+	r.s = r.s[n:]
+	return n, nil
+}
+
 func c05Lexemes() []c05lex {
 	var l []c05lex
 	add := func(ss ...string) {
@@ -444,9 +482,13 @@ func init() { Registry["C05"] = checkC05 }
 
 func checkC05(c *Ctx) (string, bool, []string) {
 	r := c.R
-	rule := "every ordered pair of lexeme spellings (all keywords, operators, punctuation, identifiers, strings, numbers, durations, parameters, comments, unterminated and bad-escape forms, illegal and multi-byte characters, regexes via ScanRegex) x 11 separators, at offset 0, mid-text and at EOF; random texts of 1-40 lexemes; texts of 0.5-16 KB in which a CRLF, CR, LF or multi-byte character starts at every byte offset within 4 of 512, 1024, 4096, 8192 and 16384, behind six kinds of filler (blanks, short words, one long comment / string / identifier, multi-byte words); multi-line statements with one unexpected token, and generated statements of all kinds with one token replaced by an illegal character, for ParseError.Pos. Non-trivial = text has >=2 lexemes; distinct by text."
+	rule := "every ordered pair of lexeme spellings (all keywords, operators, punctuation, identifiers, strings, numbers, durations, parameters, comments, unterminated and bad-escape forms, illegal and multi-byte characters, regexes via ScanRegex) x 11 separators, at offset 0, mid-text and at EOF; random texts of 1-40 lexemes; texts of 0.5-128 KB in which a CRLF, CR, LF or multi-byte character starts at every byte offset within 4 of 512, 1024, 4096, ... 131072, behind six kinds of filler (blanks, short words, one long comment / string / identifier, multi-byte words); multi-line statements with one unexpected token, and generated statements of all kinds with one token replaced by an illegal character, for ParseError.Pos; nine regex literals that do not compile, each at thousands of different positions (the error must point at the opening slash). Every text reaches the scanner through a reader chosen by a hash of the text: whole, one byte per read, halves, chunks ending after every CR, data together with EOF. Non-trivial = text has >=2 lexemes; distinct by text."
 	assume := []string{"NUL is outside the domain (rune 0 is the scanner's in-band EOF marker)", "extents come from the verif hook counter VerifConsumed(), not from reported positions"}
 	lex := c05Lexemes()
+	if c.Replay != nil && replayStr(c, "sub") == "badregex" {
+		c05BadRegexPos(c, replayInt(c, "idx"), map[string]int64{})
+		return rule, false, assume
+	}
 	if c.Replay != nil {
 		local := map[string]int64{}
 		switch replayStr(c, "sub") {
@@ -526,9 +568,12 @@ func checkC05(c *Ctx) (string, bool, []string) {
 		b, d, fill, brk int
 	}
 	var lts []lt
-	for _, b := range []int{512, 1024, 4096, 8192, 16384} {
+	for _, b := range []int{512, 1024, 4096, 8192, 16384, 32768, 65536, 131072} {
 		for d := -4; d <= 4; d++ {
 			for fill := 0; fill < 6; fill++ {
+				if b > 16384 && (fill == 1 || fill == 5) {
+					continue // tens of thousands of tokens: the few-token fillers reach the same offsets
+				}
 				for brk := 0; brk < 4; brk++ {
 					lts = append(lts, lt{b, d, fill, brk})
 				}
@@ -577,6 +622,12 @@ func checkC05(c *Ctx) (string, bool, []string) {
 		c05ErrPosGen(c, i, local)
 		r.MergeCounts(local)
 	})
+	mon.Parallel(c.N(6000, 200000), c.Workers, func(i int) {
+		local := map[string]int64{}
+		c05BadRegexPos(c, i, local)
+		r.MergeCounts(local)
+	})
+	r.Require(r.Counter("badregex.position-checked") > 0, "bad-regex error positions never checked")
 	r.Require(r.Counter("errgen.checked") > 0, "generated error positions never checked")
 	for _, k := range []string{"tok.IDENT", "tok.STRING", "tok.BADSTRING", "tok.BADESCAPE", "tok.NUMBER", "tok.INTEGER", "tok.DURATIONVAL", "tok.BOUNDPARAM", "tok.COMMENT", "tok.ILLEGAL", "tok.WS", "tok.keyword", "tok.REGEX", "tok.BADREGEX", "tok.via-ScanRegex", "errpos.checked"} {
 		r.Require(r.Counter(k) > 0, k+" never observed")
@@ -748,6 +799,38 @@ func c05ErrPosGen(c *Ctx, idx int, local map[string]int64) {
 // time): which token that is depends on how many tokens follow, by design.
 func c05Rewound(pe *influxql.ParseError) bool {
 	return len(pe.Expected) == 1 && pe.Expected[0] == "GROUP BY time(...)"
+}
+
+// c05BadRegexPos: a regex literal that does not compile is reported at the
+// position of its opening slash, wherever in the text it stands.
+func c05BadRegexPos(c *Ctx, idx int, local map[string]int64) {
+	r := c.R
+	rg := mon.NewRng(c.Seed, "c05.badregex", idx)
+	bad := rg.Pick("se[ed", "a(b", "*x", "a{2,1}", "(?P<n", `\\p{Foo}`, "a)b", "x**", "[z-a]")
+	var pre strings.Builder
+	for k, n := 0, rg.Intn(6); k < n; k++ {
+		pre.WriteString(rg.Pick(" ", "\n", "\r\n", "\t", "/* c */", "-- é\n", "  ", "\r"))
+	}
+	head := pre.String() + rg.Pick("SELECT v FROM ", "SELECT v, é FROM m WHERE h =~ ", "SELECT mean(v) FROM m\nWHERE 'é日本' = s AND\r\n h !~ ", "SHOW TAG VALUES\nWITH KEY =~ ", "SELECT v FROM db.rp.", "DROP SERIES FROM ", "SELECT v FROM m GROUP BY ")
+	text := head + "/" + bad + "/" + rg.Pick("", " ", "\nLIMIT 1", " -- c")
+	var err error
+	if p, pv, stk := mon.Try(func() { _, err = influxql.ParseQuery(text) }); p {
+		r.Violation("panic-in-parse", map[string]interface{}{"sub": "badregex", "idx": idx, "input": text, "why": fmt.Sprint(pv), "stack": stk})
+		return
+	}
+	r.Eval(1)
+	r.DistinctStr("badregex|" + text)
+	pe, ok := err.(*influxql.ParseError)
+	if !ok || pe.Message == "" {
+		local["badregex.other-outcome"]++
+		return
+	}
+	want := posAt(foldText(text), len(foldText(head)))
+	if pe.Pos != want {
+		r.Violation("error-position", map[string]interface{}{"sub": "badregex", "idx": idx, "input": text, "why": fmt.Sprintf("error %q reports %v, the regex literal starts at %v", err.Error(), pe.Pos, want)})
+		return
+	}
+	local["badregex.position-checked"]++
 }
 
 func c05ErrPosAll(c *Ctx) {
